@@ -52,7 +52,7 @@ ASSUMPTIONS = [
 PROBES = [
     "frame_not_dividing_read_two_reads", "truncate_in_first_read", "truncate_on_read_boundary", "truncate_mid_frame",
     "truncate_zero_data", "big_endian", "header_2048_plus", "raw_codes_requested", "g711_all_codes", "multi_read",
-    "bytesio", "fileobj", "suffix_inference",
+    "bytesio", "fileobj", "suffix_inference", "magic_bytes_at_read_boundary", "frame_exceeds_read_size",
 ]
 FAULT_KINDS = ["truncate", "short_file", "bad_magic", "small_hdrsize"]
 EXHAUSTIVE = {}
@@ -68,10 +68,15 @@ def generate(rng, tier, k):
     coding = rng.choice(("pcm", "pcm", "pcm", "ulaw", "alaw"))
     order = rng.choice(("01", "10")) if coding == "pcm" else "1"
     ch = rng.choice((1, 1, 2, 2, 3, 3, 4, 5, 6, 7, 8))
+    if rng.random() < 0.02:
+        # a frame around / beyond the 16 KiB read size
+        ch = rng.choice((8191, 8192, 8193, 9000)) if coding == "pcm" else rng.choice((16383, 16384, 16385, 20000))
     fb = ch * (2 if coding == "pcm" else 1)
-    per = READ // fb
+    per = max(1, READ // fb)
     r = rng.random()
-    if r < 0.25:
+    if fb > 4096:
+        n = rng.randrange(1, 6)
+    elif r < 0.25:
         n = rng.randrange(1, 40)
     elif r < 0.75:
         n = max(1, per * rng.choice((1, 1, 2, 3)) + rng.randrange(-3, 4))
@@ -84,6 +89,11 @@ def generate(rng, tier, k):
         "seed": rng.randrange(1 << 30), "access": rng.choice(("path", "suffix", "fileobj", "bytesio", "bytesio")),
         "dtype_req": None, "fault": None, "rate": rng.choice((8000, 16000, 44100)),
     }
+    if rng.random() < 0.08 and n * fb > READ + 8:
+        # payload bytes that spell the shorten magic exactly where a read starts, including the very first one: the
+        # header says the file is not compressed
+        first = 1 if os.environ.get("VERIF_C12_SKIP_OFFSET0") else 0  # (development knob, see seeded/C12-c/meta.json)
+        scn["magic_at"] = [READ * k for k in range(first, (n * fb - 4) // READ + 1) if rng.random() < 0.7][:4]
     if coding != "pcm" and rng.random() < 0.3:
         scn["dtype_req"] = "uint8"
     elif coding == "pcm" and rng.random() < 0.15:
@@ -123,6 +133,13 @@ def build(scn):
         if n >= 2:
             samples[0, 0], samples[-1, -1] = -32768, 32767
         body = sw.pcm_body(samples, scn["order"])
+        if scn.get("magic_at"):
+            b = bytearray(body)
+            for off in scn["magic_at"]:
+                if off + 4 <= len(b) and off % 2 == 0:
+                    b[off : off + 4] = b"ajkg"
+            body = bytes(b)
+            samples = np.frombuffer(body, dtype="<i2" if scn["order"] == "01" else ">i2").astype(np.int16).reshape(n, ch)
         cv = scn.get("coding_value", "pcm")
         fields = sw.pcm_fields(n, ch, scn.get("rate", 16000), scn["order"], scn.get("coding_field", True), cv)
         expected = samples
@@ -134,6 +151,12 @@ def build(scn):
                 codes[:, 1] = codes[::-1, 0]
         else:
             codes = g.integers(0, 256, size=(n, ch)).astype(np.uint8)
+        if scn.get("magic_at"):
+            flat = codes.reshape(-1).copy()
+            for off in scn["magic_at"]:
+                if off + 4 <= flat.size:
+                    flat[off : off + 4] = np.frombuffer(b"ajkg", dtype=np.uint8)
+            codes = flat.reshape(n, ch)
         body = sw.law_body(codes)
         fields = sw.law_fields(n, ch, scn.get("rate", 8000), coding)
         if scn.get("dtype_req") == "uint8":
@@ -197,6 +220,10 @@ def execute(scn, keep_trace=False):
         res.probe("raw_codes_requested")
     if scn.get("all_codes"):
         res.probe("g711_all_codes")
+    if scn.get("magic_at"):
+        res.probe("magic_bytes_at_read_boundary")
+    if fb > READ:
+        res.probe("frame_exceeds_read_size")
     if len(body) > READ:
         res.probe("multi_read")
         if READ % fb:
@@ -273,13 +300,13 @@ def execute(scn, keep_trace=False):
                                                              out.size, scn["coding"], ch, n, fault), **facts)
             elif expect_warn and nwarn == 0:
                 res.violate("NO_WARNING", "truncated data section decoded without a warning", **facts)
-    per = READ // fb
+    per = max(1, READ // fb)
     ncls = "tiny" if n < 40 else ("<1r" if n < per - 3 else ("~%dr" % round(n / per) if abs(n - per * round(n / per)) <= 3 else ">1r"))
     fpos = ""
     if fault and fault["kind"] == "truncate":
         t = int(fault["data_bytes"])
         fpos = "@%s%s" % ("0" if t == 0 else ("r" if t % READ == 0 else ("<r" if t < READ else ">r")), "m" if t % fb else "f")
-    res.signature = "%s%s/c%d/h%d/%s/%s/%s/%s%s" % (scn["coding"], scn["order"], ch, scn.get("hdr_blocks", 1), access,
+    res.signature = "%s%s/c%s/h%d/%s/%s/%s/%s%s" % (scn["coding"], scn["order"], ch if ch <= 8 else "huge", scn.get("hdr_blocks", 1), access,
                                                     dt, ncls, fault["kind"] if fault else "-", fpos)
     res.nontrivial = bool(fault or len(body) > READ or READ % fb)
     res.digest = tr.digest()
